@@ -36,6 +36,9 @@ M=[
  ("C2 DefaultFormat lacks a word", C, [('const DefaultFormat = "godesigner"','const DefaultFormat = "godesign"')]),
  ("P1 stringx.Title uses a package-level x/text Caser (seeded/C20/shared-title-caser)", S, [("\treturn cases.Title(language.English, cases.NoLower).String(s.source)","\treturn verifCaser.String(s.source)"),("type String struct {","var verifCaser = cases.Title(language.English, cases.NoLower)\n\ntype String struct {")]),
  ("P2 format.split reuses a package-level buffer, Reset on entry (sequentially invisible)", F, [("\t\tbuffer = bytes.NewBuffer(nil)\n\t)\n","\t\tbuffer = verifBuf\n\t)\n\tbuffer.Reset()\n"),("func getStyle(","var verifBuf = bytes.NewBuffer(nil)\n\nfunc getStyle(")]),
+ ("L1 format.split on bufio.Scanner with the default 64 KiB token limit (seeded/C20/split-scanner-long-word-limit)", F, "/verif/seeded/C20/split-scanner-long-word-limit/patch.diff"),
+ ("L2 stringx.splitBy flushes a piece when it reaches 4096 bytes", S, [("\t\tbuffer.WriteRune(r)\n\t}\n\tif buffer.Len() != 0 {","\t\tbuffer.WriteRune(r)\n\t\tif buffer.Len() >= 4096 {\n\t\t\tlist = append(list, buffer.String())\n\t\t\tbuffer.Reset()\n\t\t}\n\t}\n\tif buffer.Len() != 0 {")]),
+ ("L3 stringx.ToSnake marks the receiver in a fixed 64 KiB scratch array", S, [("func (s String) ToSnake() string {","func (s String) ToSnake() string {\n\tif len(s.source) > 0 {\n\t\tvar scratch [1 << 16]byte\n\t\tscratch[len(s.source)-1] = 1\n\t}")]),
  ("S1 ToSnake joins with empty string", S, [('return strings.Join(target, "_")','return strings.Join(target, "")')]),
  ("S2 ToCamel keeps underscores (remove=false)", S, [("\t\treturn r == '_'\n\t}, true)","\t\treturn r == '_'\n\t}, false)")]),
  ("S3 splitBy drops last piece", S, [("\tif buffer.Len() != 0 {\n\t\tlist = append(list, buffer.String())\n\t}\n\n\treturn list","\treturn list")]),
@@ -53,6 +56,10 @@ for name,f,reps in M:
     for ff in (F,S,C): shutil.copy(SRC+ff, DST+ff)
     src=open(DST+f).read()
     ok=True
+    if isinstance(reps,str):
+        r=subprocess.run(['patch','-p1','-d','/tmp/verif-mut-C20','-i',reps],capture_output=True,text=True)
+        if r.returncode!=0: print("PATCH PROBLEM", name, r.stdout, r.stderr); continue
+        src=open(DST+f).read(); reps=[]
     for a,b in reps:
         if src.count(a)!=1: print("ANCHOR PROBLEM", name, repr(a), src.count(a)); ok=False; break
         src=src.replace(a,b)
